@@ -82,6 +82,9 @@ int merge_arg_lists (int num_arg, array_t * arr, int start) {
 
   if (num_arr_arg)
     {
+      /* the bound arguments are as many as the pointer's creator supplied: test the room like every
+       * other push of a run-time count (push_some_svalues, push_undefineds) */
+      STACK_CHECK (num_arr_arg);
       sptr = (sp += num_arr_arg);
       if (num_arg)
         {
